@@ -215,3 +215,19 @@ def dense_collections(rng, count, nmin, nmax, mmin=6, mmax=16):
         n = rng.randint(nmin, nmax)
         out.append(("dense", n, [uniform(rng, n) for _ in range(rng.randint(mmin, mmax))]))
     return out
+
+
+def sparse_collections(rng, count, nmin, nmax, mmin=9, mmax=18):
+    """many low-weight strings (weight 1..3) on few qubits: several true dependents per component, long reductions in which later
+    strings are tested against strings already reported dependent; small enough for the full closure validator"""
+    out = []
+    for _ in range(count):
+        n = rng.randint(nmin, nmax)
+        g = []
+        for _ in range(rng.randint(mmin, mmax)):
+            s_ = ["I"] * n
+            for pos in rng.sample(range(n), rng.choice((1, 2, 2, 2, 3))):
+                s_[pos] = rng.choice("XYZ")
+            g.append("".join(s_))
+        out.append(("sparse", n, g))
+    return out
